@@ -120,6 +120,10 @@ func (e *Engine) VerifyFunctionAs(fn *ssa.Function, c *Contract, panics bool, pr
 		}
 		r.addFact(genv.EvalBool(gf.E))
 	}
+	// the nil base denotes no object
+	r.addFact(tb.Not(tb.App("cowned", BoolSort, tb.BVI(64, 0))))
+	r.addFact(tb.Not(tb.App("rodata", BoolSort, tb.BVI(64, 0))))
+	r.addFact(tb.Not(tb.Select(st.BA, tb.BVI(64, 0))))
 	// trace starts empty
 	st.Ghost["trace.len"] = tb.BVI(64, 0)
 	if c != nil {
@@ -174,6 +178,11 @@ func (e *Engine) VerifyFunctionAs(fn *ssa.Function, c *Contract, panics bool, pr
 		r.assume(fin, env2.useAxiom(u))
 	}
 	for i, cl := range c.Ensures {
+		if hasTag(cl, "assume") {
+			// ghost bookkeeping / environment assumption: used by callers, not checked here (listed in the evidence)
+			e.usedAxioms["assumed postcondition of "+e.relName(fn)+": "+cl.Text] = true
+			continue
+		}
 		if !rt.wantClause(cl) {
 			continue
 		}
@@ -1036,4 +1045,13 @@ func leafSuffixesOrEmpty(t types.Type) []string {
 		out = append(out, s.s)
 	}
 	return out
+}
+
+func hasTag(cl *Clause, t string) bool {
+	for _, x := range cl.Tags {
+		if x == t {
+			return true
+		}
+	}
+	return false
 }
